@@ -21,6 +21,9 @@ pub enum Estimate {
     Times100,
     /// k << 32: low 32 bits zero
     LowBitsZero(u8),
+    /// ((segs * 2048 + tail) * 256 + low): the reservoir sample (estimate / 256) is `segs` whole
+    /// 2048-byte segments plus a tail of `tail` bytes - around the k-mer length (16) and 0
+    SampleTail { segs: u8, tail: u8, low: u8 },
 }
 
 #[derive(Clone, Debug, Serialize, Deserialize)]
@@ -84,6 +87,7 @@ pub fn check(case: &Case, ctx: &mut CaseCtx) -> CaseResult {
             Estimate::Larger(x) => n + x as usize,
             Estimate::Times100 => n * 100,
             Estimate::LowBitsZero(k) => (k.clamp(1, 3) as usize) << 32,
+            Estimate::SampleTail { segs, tail, low } => (segs.clamp(1, 4) as usize * 2048 + tail as usize) * 256 + low as usize,
         };
         create_raw_dict_from_source(Chunked { data: &data, pos: 0, chunk: case.chunk as usize }, est, &mut out, dict_size);
         ctx.feat(match case.estimate {
@@ -93,6 +97,13 @@ pub fn check(case: &Case, ctx: &mut CaseCtx) -> CaseResult {
             Estimate::Larger(_) => "estimate:larger",
             Estimate::Times100 => "estimate:x100",
             Estimate::LowBitsZero(_) => "estimate:low_32_bits_zero",
+            Estimate::SampleTail { tail, .. } => {
+                if tail < 16 {
+                    "estimate:sample_ends_in_a_tail_shorter_than_a_kmer"
+                } else {
+                    "estimate:sample_ends_in_a_short_tail"
+                }
+            }
         });
         ctx.feat_if(n == 0 && est >= 16, "source:empty_with_estimate>=16");
         ctx.nontrivial = (n >= 16 && est != n) || dict_size < n;
@@ -133,6 +144,7 @@ fn case_strategy(tier: Tier) -> impl Strategy<Value = Case> {
         2 => prop_oneof![1u32..=20, 1u32..=100_000].prop_map(Estimate::Larger),
         1 => Just(Estimate::Times100),
         1 => (1u8..=3).prop_map(Estimate::LowBitsZero),
+        3 => (1u8..=4, prop_oneof![0u8..=17, 0u8..=40], any::<u8>()).prop_map(|(segs, tail, low)| Estimate::SampleTail { segs, tail, low }),
     ];
     let dict_size = prop_oneof![Just(0u32), Just(1u32), Just(15u32), Just(16u32), Just(100u32), Just(1024u32), Just(65_536u32), 0u32..=4096, 0u32..=300_000];
     (source, estimate, dict_size, prop_oneof![Just(0u16), 1u16..=64, 100u16..=9000], prop::bool::weighted(0.15), any::<u64>()).prop_map(|(source, estimate, dict_size, chunk, via_dir, rng_seed)| {
@@ -143,6 +155,12 @@ fn case_strategy(tier: Tier) -> impl Strategy<Value = Case> {
         // the source is shortened until the predicted work is bounded (a slow but terminating run
         // must not be mistaken for a hang).
         let mut source = source;
+        if let Estimate::SampleTail { segs, tail, .. } = estimate {
+            // scoring runs only when the source is longer than the sample: a little longer, so that
+            // the quadratic re-scoring stays small
+            let sample = segs.clamp(1, 4) as u32 * 2048 + tail as u32;
+            source.len = sample + 100 + source.len % 1400;
+        }
         loop {
             let n = source.len as u64;
             let est: u64 = match estimate {
@@ -152,6 +170,7 @@ fn case_strategy(tier: Tier) -> impl Strategy<Value = Case> {
                 Estimate::Larger(x) => n + x as u64,
                 Estimate::Times100 => n * 100,
                 Estimate::LowBitsZero(k) => (k.clamp(1, 3) as u64) << 32,
+                Estimate::SampleTail { .. } => break,
             };
             if est < 16 {
                 break;
@@ -170,7 +189,7 @@ fn case_strategy(tier: Tier) -> impl Strategy<Value = Case> {
 }
 
 pub fn run(eng: &Engine) {
-    eng.set_rule("training sources (empty, < 16 B, < one segment, text-like, binary, constant, periodic; bounded to 40 KiB quick / 256 KiB thorough because the builder is quadratic) x source-size estimate {exact, 0, smaller, larger, x100, k << 32 (low 32 bits zero)} x dict_size {0, 1, 15, 16, 100, 1 KiB, 64 KiB, random, > source} x reader chunking, through create_raw_dict_from_source and create_raw_dict_from_dir (temporary directory with nested files); oracle: returns without panic within the deadline (an overrun is a violation of kind hang) and writes at most dict_size bytes; non-trivial = source >= 16 bytes with an estimate different from its length, or dict_size < source length; distinct by case hash; the builder's unseeded fastrand is seeded from the case so failures replay");
+    eng.set_rule("training sources (empty, < 16 B, < one segment, text-like, binary, constant, periodic; bounded to 40 KiB quick / 256 KiB thorough because the builder is quadratic) x source-size estimate {exact, 0, smaller, larger, x100, k << 32 (low 32 bits zero), sample = whole segments + a tail of 0..40 bytes} x dict_size {0, 1, 15, 16, 100, 1 KiB, 64 KiB, random, > source} x reader chunking, through create_raw_dict_from_source and create_raw_dict_from_dir (temporary directory with nested files); oracle: returns without panic within the deadline (an overrun is a violation of kind hang) and writes at most dict_size bytes; non-trivial = source >= 16 bytes with an estimate different from its length, or dict_size < source length; distinct by case hash; the builder's unseeded fastrand is seeded from the case so failures replay");
     eng.assume("sources are bounded to 256 KiB: the builder re-scores the whole sample for every 100 bytes read");
     let tier = eng.tier;
     let n = eng.tier.pick(2_000, 30_000);
